@@ -4,6 +4,6 @@ cd /verif/tla/stub || exit 2
 rc=0
 for m in "$@"; do
   out=$(java -DTLA-Library=/verif/tla -cp /opt/veriftools/tla/tla2tools.jar:/opt/veriftools/tla/CommunityModules-deps.jar tla2sany.SANY /verif/tla/$m.tla 2>&1)
-  if echo "$out" | grep -q -i "error\|Could not\|Unknown operator"; then echo "SANY FAIL $m"; echo "$out" | grep -v "^Parsing\|^Semantic processing\|^Linting" | head -20; rc=2; fi
+  if echo "$out" | grep -q -i "error\|Could not\|Unknown operator\|conflicts with"; then echo "SANY FAIL $m"; echo "$out" | grep -v "^Parsing\|^Semantic processing\|^Linting" | head -20; rc=2; fi
 done
 exit $rc
